@@ -291,13 +291,13 @@ PROPS = {
                 extra=[x_c08_race], theorems=T_C08),
     "C20": dict(runs=[], extra=[x_c20], theorems=[],
                 rule="each case = (flag set, generated file, mode, file or stdin/stdout); every case is non-trivial; distinct = distinct case description"),
-    "C02": dict(runs=[FW("fw", judge=j_c02w), FR("fr", judge=j_c02r)], theorems=T("C09full", "c09_writer_all", ns="C09")),
+    "C02": dict(runs=[FW("fw", judge=j_c02w), FR("fr", judge=j_c02r)], theorems=T("C02", "c02_roundtrip", "c02_roundtrip_read", "c02_roundtrip_read_consumed", "c02_read_no_error", "written_lenient") + T("C09full", "c09_writer_all", ns="C09")),
     "C05": dict(runs=[FR("frmut", judge=j_c05), FR("fr", judge=j_c05)], theorems=T_C05),
     "C06": dict(runs=[FR("frtrunc", judge=j_c06)], theorems=T_C06),
     "C07": dict(runs=[FR("frhost", judge=j_c07), FR("frmut", judge=j_c07)], theorems=[]),
     "C09": dict(runs=[FW("fw", judge=j_c09)], theorems=T_C09),
     "C15": dict(runs=[FW("fwfail", judge=j_c15w), FR("frfail", judge=j_c15r)], theorems=[]),
-    "C16": dict(runs=[FR("fr", judge=j_c16)], theorems=T("C05", "c05_writeTo_partial", "c05_read_partial", kind=_K64)),
+    "C16": dict(runs=[FR("fr", judge=j_c16)], theorems=T("C16", "c16_writeTo", "c16_read", "c16_read_no_error", kind=_K64)),
     "C17": dict(runs=[FW("fwlife", judge=j_c17w), FR("fr", judge=j_c17r)], theorems=[]),
     "C01": dict(runs=[dict(CMP, judge=j_c01)], theorems=T_FAST + T_HC),
     "C03": dict(runs=[dict(DEC_ASM, judge=j_c03), dict(DEC_GO, judge=j_c03)], theorems=T("C04go", "c03_go") + T("C03asm", "c03_asm")),
